@@ -682,6 +682,23 @@ func runCheck(prop, tier, repo, verif string, verbose bool, tmo int) int {
 			known[f.Obligation] = f
 		}
 	}
+	claimedSet := map[string]bool{}
+	for _, d := range lp.Discharged {
+		claimedSet[d] = true
+	}
+	genNow := map[string]bool{}
+	for _, r := range pr.results {
+		genNow[r.o.Name] = true
+	}
+	for _, s := range pr.skipped {
+		genNow[s] = true
+	}
+	lostUnclaimed := map[string]int{}
+	for _, u := range lp.Unclaimed {
+		if !genNow[u] {
+			lostUnclaimed[oblPrefix(u)]++
+		}
+	}
 	exit := 0
 	violations := 0
 	var discharged, failedUnclaimed, knownHit []string
@@ -708,6 +725,15 @@ func runCheck(prop, tier, repo, verif string, verbose bool, tmo int) int {
 			failedUnclaimed = append(failedUnclaimed, r.o.Name)
 			continue
 		}
+		// an unclaimed statement-level obligation whose statement was edited comes back under a new name: it is the
+		// same unproved obligation, not a new alarm (as many new names per function and kind as unclaimed ones vanished)
+		if !claimedSet[r.o.Name] {
+			if p := oblPrefix(r.o.Name); lostUnclaimed[p] > 0 {
+				lostUnclaimed[p]--
+				failedUnclaimed = append(failedUnclaimed, r.o.Name)
+				continue
+			}
+		}
 		// violation
 		violations++
 		exit = 1
@@ -732,15 +758,35 @@ func runCheck(prop, tier, repo, verif string, verbose bool, tmo int) int {
 		fmt.Printf("VIOLATION property=%s replay=%s%s\n", prop, rp, suffix)
 		fmt.Printf("  failed obligation %s (%s) at %s: %s\n", r.o.Name, r.res.Status, r.o.Pos, truncate(r.o.Text, 200))
 	}
-	// locked obligations that were not regenerated
-	var lost []string
+	// locked obligations that were not regenerated. Obligations named after a contract clause (post, assert, invariants,
+	// measures, frames, preconditions of callees) must still be generated: losing one means the contract no longer binds
+	// (exit 2). Obligations named after the source text of a statement (nil, bounds, ...) disappear whenever that statement
+	// is edited, renamed or removed; the edited statement raises obligations of its own under a new name, which are
+	// attempted like any other (and reported as violations when they fail), so a lost name of that kind is only noted.
+	var lost, renamed []string
 	for _, d := range lp.Discharged {
-		if !generated[d] {
+		if generated[d] {
+			continue
+		}
+		kind := d
+		if i := strings.Index(kind, "#"); i >= 0 {
+			kind = kind[i+1:]
+		}
+		if i := strings.Index(kind, ":"); i >= 0 {
+			kind = kind[:i]
+		}
+		switch kind {
+		case "nil", "bounds", "slice", "div", "typeassert", "makeslice", "mapwrite", "ownwrite", "ownread", "guarded", "atomiconly", "mapkeys":
+			renamed = append(renamed, d)
+		default:
 			lost = append(lost, d)
 		}
 	}
 	for _, l := range lost {
 		fmt.Printf("BINDING-LOST property=%s obligation=%s (claimed in the lock file, not regenerated from the current tree)\n", prop, l)
+	}
+	if len(renamed) > 0 {
+		fmt.Printf("NOTE property=%s: %d statement-level obligations of the lock file were not regenerated (their statements were edited); the obligations of the edited statements were attempted under their new names, e.g. %s\n", prop, len(renamed), renamed[0])
 	}
 	for _, be := range eng.bindingErrors {
 		fmt.Printf("BINDING-ERROR property=%s %s\n", prop, be)
@@ -1059,4 +1105,17 @@ func runCore(args []string, repo, verif string) int {
 func execCmd(name string, args ...string) (string, error) {
 	out, err := exec.Command(name, args...).CombinedOutput()
 	return string(out), err
+}
+
+// oblPrefix: "<function>#<kind>" of an obligation name.
+func oblPrefix(name string) string {
+	i := strings.Index(name, "#")
+	if i < 0 {
+		return name
+	}
+	rest := name[i+1:]
+	if j := strings.Index(rest, ":"); j >= 0 {
+		return name[:i+1+j]
+	}
+	return name
 }
